@@ -19,39 +19,40 @@ const (
 )
 
 type Obligation struct {
-	Name    string
-	Kind    string // post, inv-entry, inv-step, call-pre, safe, ovf, frame, pre-sat, cover, lemma, assert
-	Tags    []string
-	Guard   *Term
-	Goal    *Term
-	Prefix  int // number of vc.lines visible to this obligation
-	WantSat bool
-	Pos     string
-	Func    string
-	Note    string
-	LastRet bool
+	Name        string
+	Kind        string // post, inv-entry, inv-step, call-pre, safe, ovf, frame, pre-sat, cover, lemma, assert
+	Tags        []string
+	Guard       *Term
+	Goal        *Term
+	Prefix      int // number of vc.lines visible to this obligation
+	WantSat     bool
+	Pos         string
+	Func        string
+	Note        string
+	LastRet     bool
+	RetLine     string // source text of the return statement (post obligations)
 	noPathSplit bool
 }
 
 type VC struct {
-	Name     string
-	mode     IntMode
-	decls    []string
-	declared map[string]bool
-	lines    []string
-	obls     []*Obligation
-	nfresh   int
-	usesSets bool
+	Name       string
+	mode       IntMode
+	decls      []string
+	declared   map[string]bool
+	lines      []string
+	obls       []*Obligation
+	nfresh     int
+	usesSets   bool
 	quantDepth int
-	usesQ    bool
-	strLits  map[string]*Term
-	strVals  map[string]string
-	defs     map[string]*Term
-	typeTags map[string]*Term
-	assumes  []string // textual notes of assumptions used (trusted models, etc.)
-	dropped  map[string]bool
-	structs  map[string]*types.Struct
-	fset     *token.FileSet
+	usesQ      bool
+	strLits    map[string]*Term
+	strVals    map[string]string
+	defs       map[string]*Term
+	typeTags   map[string]*Term
+	assumes    []string // textual notes of assumptions used (trusted models, etc.)
+	dropped    map[string]bool
+	structs    map[string]*types.Struct
+	fset       *token.FileSet
 }
 
 func NewVC(name string, mode IntMode, fset *token.FileSet) *VC {
@@ -774,7 +775,7 @@ func (vc *VC) SetOp(op string, args ...*Term) *Term {
 type unsupportedErr struct{ msg string }
 
 func (u unsupportedErr) Error() string { return "unsupported: " + u.msg }
-func unsupported(msg string) error      { return unsupportedErr{msg} }
+func unsupported(msg string) error     { return unsupportedErr{msg} }
 
 // StrCat builds string concatenation, folding literals.
 func (vc *VC) StrCat(a, b *Term) *Term {
